@@ -170,6 +170,58 @@ pub fn try_image(format: &str, image: &[u8], ts: &TileSet) -> Outcome {
 	}
 }
 
+fn many_blocks_tileset(rng: &mut crate::rng::Rng, format: &str) -> crate::gen::TileSet {
+	let (tf, tc) = *rng.pick(&pairs_for(format));
+	let n = rng.range(30, 160);
+	let mut tiles = std::collections::BTreeMap::new();
+	// (blocks stay within a 4 x 4 block window per level: the writer walks every block of a level's box)
+	let base: Vec<(u64, u64)> = (0..12).map(|_| (rng.below(24), rng.below(24))).collect();
+	for i in 0..n {
+		let z = 13 + (i % 12) as u8;
+		let (bx, by) = base[(i % 12) as usize];
+		let (x, y) = (((bx + rng.below(4)) * 256 + rng.below(256)) as u32, ((by + rng.below(4)) * 256 + rng.below(256)) as u32);
+		tiles.insert((z, x, y), gen::payload_unique(z, x, y, 20, rng));
+	}
+	crate::gen::TileSet { format: tf, comp: tc, tiles, tilejson: "{\"tilejson\":\"3.0.0\"}".into(), shape: format!("{n} tiles in as many blocks"), really_compressed: false }
+}
+
+/// every byte cut of the last operation of a trace (the final header), nothing else
+fn torn_final_operation_only(rep: &mut Report, format: &str, ts: &crate::gen::TileSet) {
+	let t0 = ();
+	let mut src = MemSource::new(ts);
+	let mut tw = TraceWriter::new();
+	let wr = guard::catch(|| {
+		guard::block_on(async {
+			if format == "versatiles" {
+				VersaTilesWriter::write_to_writer(&mut src, &mut tw).await
+			} else {
+				PMTilesWriter::write_to_writer(&mut src, &mut tw).await
+			}
+		})
+	});
+	if !matches!(wr, Ok(Ok(()))) {
+		return;
+	}
+	let ops = tw.ops;
+	let Some((Op::Write { pos, data }, before)) = ops.split_last() else { return };
+	let mut base = Vec::new();
+	for Op::Write { pos, data } in before {
+		apply(&mut base, *pos, data);
+	}
+	rep.count("traces_examined_for_the_torn_final_operation_only", 1);
+	let _ = t0;
+	for c in 1..data.len() {
+		let mut img = base.clone();
+		apply(&mut img, *pos, &data[..c]);
+		rep.eval();
+		rep.count("crash_points", 1);
+		if let Outcome::OpenedWrong(e) = try_image(format, &img, ts) {
+			rep.violation(&format!("{format}|opens-but-wrong|torn-final-operation"), "an interrupted write left a file that opens as a valid container but lacks / misreports tiles", json!({"format": format, "tileset": ts.describe(), "byte_cut_in_the_final_operation": c, "of": data.len(), "what": e}));
+			return;
+		}
+	}
+}
+
 fn run_case(cx: &CaseCtx, rep: &mut Report) {
 	FORMAT_DIFFERS.store(0, std::sync::atomic::Ordering::Relaxed);
 	run_case_inner(cx, rep);
@@ -189,6 +241,17 @@ fn run_case_inner(cx: &CaseCtx, rep: &mut Report) {
 	let big = cx.case < 2;
 	let ts = if big {
 		big_tileset(&mut rng, format)
+	} else if cx.case % 4 == 2 && cx.case >= 2 {
+		// versatiles traces with many blocks: the compressed block index grows past a few hundred bytes, so a torn
+		// length field of the final header can point at a proper prefix of it
+		let t = many_blocks_tileset(&mut rng, format);
+		rep.count("traces_with_many_blocks", 1);
+		// ... and for a number of further tile sets of that kind only the torn final operation is examined
+		for _ in 0..cx.tier.pick(40, 120) {
+			let extra = many_blocks_tileset(&mut rng, format);
+			torn_final_operation_only(rep, format, &extra);
+		}
+		t
 	} else {
 		let opts = GenOpts { max_tiles: cx.tier.pick(120, 400), max_level: 20, formats: pairs_for(format), unique_payloads: true, ..Default::default() };
 		gen::gen_tileset(&mut rng, &opts)
